@@ -50,7 +50,7 @@ PKG_V1 = {"pkg/__init__.py": '"""Pkg v1."""\nfrom pkg.a import f\nVALUE = 1\n', 
 PKG_V2 = {"pkg/__init__.py": '"""Pkg v2."""\nfrom pkg.a import f\nVALUE = 2\n', "pkg/a.py": 'def f(x):\n    """Doc f."""\n    return x\n'}
 WRITER = "import os\nopen(os.path.join(os.path.dirname(__file__), 'written_at_import.txt'), 'w').close()\n"
 HISTORIES = ["plain", "slash-branch", "detached", "user-worktree", "dirty", "syntax-error-in-old", "absent-in-old", "writes-at-import", "stash", "user-griffe-branches"]
-OPS = ["load-static", "load-inspect", "load-extension", "load-unknown-ref", "load-slash-branch", "check", "check-base-ref"]
+OPS = ["load-static", "load-inspect", "load-extension", "load-unknown-ref", "load-slash-branch", "check", "check-base-ref", "load-relative-repo-chdir"]
 
 
 def _git(args, cwd, check=True):
@@ -256,6 +256,18 @@ def operate(griffe, op, repo, inj):
         return griffe.load_git("pkg", ref="v1", repo=repo, allow_inspection=False, extensions=griffe.load_extensions(make_extension(griffe, inj)))
     if op == "load-unknown-ref":
         return griffe.load_git("pkg", ref="no-such-ref", repo=repo, allow_inspection=False)
+    if op == "load-relative-repo-chdir":
+        # the repository is given as "." and something run during the load (here an extension) changes the working directory
+        cwd = os.getcwd()
+        os.chdir(repo)
+        try:
+            class Chdir(griffe.Extension):
+                def on_module_instance(self, **kwargs):
+                    os.chdir(os.environ["TMPDIR"])
+
+            return griffe.load_git("pkg", ref="v1", repo=".", allow_inspection=False, extensions=griffe.load_extensions(Chdir()))
+        finally:
+            os.chdir(cwd)
     if op == "load-slash-branch":
         return griffe.load_git("pkg", ref="feature/x", repo=repo, allow_inspection=False)
     if op == "check":
@@ -289,6 +301,8 @@ def applicable(history, op):
         return history == "slash-branch"
     if op == "load-inspect":
         return history in ("plain", "writes-at-import", "dirty")
+    if op == "load-relative-repo-chdir":
+        return history in ("plain", "dirty", "user-worktree")
     if op == "load-unknown-ref":
         return history in ("plain", "dirty")
     if op == "check":
